@@ -48,7 +48,9 @@ HINT_PRELUDE = [
     "original_options = dict(tcp.options)",
     "mss_hint = int_only(original_options.get('MSS'))",
     "window_scale_hint = int_only(original_options.get('WScale'))",
-    "timestamp_hint = [int_only(value) for value in original_options.get('Timestamp', (None, None))]",
+    "timestamp_option = original_options.get('Timestamp')",
+    "if not (isinstance(timestamp_option, tuple) and len(timestamp_option) == 2):\n    timestamp_option = (None, None)",
+    "timestamp_hint = [int_only(value) for value in timestamp_option]",
 ]
 HINT_BINDINGS = {"mss_hint": ("(b_mss b)", "OPT Z"), "window_scale_hint": ("(b_ws b)", "OPT Z"), "timestamp_hint": ("(b_ts1 b, b_ts2 b)", "PAIR OPT Z")}
 CONSTRUCTORS = {
@@ -633,10 +635,10 @@ class Tr:
             if len(idx) != 1:
                 fail(fn, "hint prelude: int_only")
             i = idx[0]
-            got = [ast.unparse(st) for st in body[i:i + 5]]
+            got = [ast.unparse(st) for st in body[i:i + len(HINT_PRELUDE)]]
             if got != HINT_PRELUDE:
                 fail(body[i], "hint prelude differs from the assumed one: %r" % (got,))
-            body = body[:i] + body[i + 5:]
+            body = body[:i] + body[i + len(HINT_PRELUDE):]
             env.update(HINT_BINDINGS)
         ret_ty = RET_TYPES[fn.name]
         term = self.block(body, env, ret_ty, None)
